@@ -23,6 +23,7 @@ func init() {
 	register("C09", runC09, checkC09)
 	register("C10", runC10, checkC10)
 	register("C11", runC11, checkC11)
+	register("C12", runC12, checkC12)
 	register("C13", runC13, checkC13R)
 	register("C14", runC14, checkC14)
 	register("C15", runC15, checkC15)
